@@ -237,7 +237,7 @@ def rule_multpair(ctx):
 
 
 def rule_apply(ctx):
-    r = RuleResult("C06-APPLY", "slice_arrays / slice_key consume the table as written", 2)
+    r = RuleResult("C06-APPLY", "slice_arrays / slice_key consume the table as written", 3)
     tc = tree_class(ctx)
     sa = tc.lookup("slice_arrays")
     C.require(sa is not None, "slice_arrays not found")
@@ -248,6 +248,24 @@ def rule_apply(ctx):
         r.ok(key, sa.loc, "slices exactly the inputs listed in sliced_inputs")
     else:
         r.violation(key, sa.loc, "slice_arrays does not iterate self.sliced_inputs")
+    # the selector fixes *every* axis that carries a sliced index: it is built per axis
+    # of the term; positions looked up with ``term.index(ix)`` find only the first axis
+    # of a repeated (diagonal / trace) index
+    key = ctx.key(sa, "C06-APPLY", "selector")
+    idx_calls = [n for n in walk_local(sa.node) if isinstance(n, ast.Call)
+                 and isinstance(n.func, ast.Attribute) and n.func.attr in ("index", "find")]
+    per_axis = [n for n in walk_local(sa.node) if isinstance(n, (ast.GeneratorExp, ast.ListComp))
+                and any("inputs" in C.unparse(g.iter) or "term" in C.unparse(g.iter) for g in n.generators)
+                and any(isinstance(x, ast.Call) and isinstance(x.func, ast.Attribute) and x.func.attr == "get"
+                        or isinstance(x, ast.Subscript) for x in ast.walk(n.elt))]
+    if idx_calls:
+        r.violation(key, C.loc(sa, idx_calls[0]), f"`{C.unparse(idx_calls[0])}` locates a sliced index by its "
+                    "first position in the term: an index repeated on one tensor keeps its other axes, "
+                    "while the tree's leaf legs assume every occurrence is gone")
+    elif per_axis:
+        r.ok(key, C.loc(sa, per_axis[0]), "one selector entry per axis of the term")
+    else:
+        r.exempt(key, sa.loc, "selector construction not of a recognised form: not decided")
     sk = tc.lookup("slice_key")
     C.require(sk is not None, "slice_key not found")
     key = ctx.key(sk, "C06-APPLY")
@@ -258,7 +276,28 @@ def rule_apply(ctx):
     strides = [n for n in walk_local(sk.node) if isinstance(n, ast.Call)
                and dotted(n.func) == "get_slice_strides"
                and n.args and C.unparse(n.args[0]) == "self.sliced_inds"]
-    if walks and strides:
+    # strides are positional (entry k belongs to entry k of the table): whatever is zipped
+    # with them must be the whole table, not a filtered view of it
+    la_sk = ctx.r.local_assignments(sk)
+    misaligned = None
+    for z in [n for n in walk_local(sk.node) if isinstance(n, ast.Call) and dotted(n.func) == "zip"
+              and len(n.args) == 2]:
+        args = list(z.args)
+        if not any(isinstance(a, ast.Name) and a.id == "strides" for a in args):
+            continue
+        other = [a for a in args if not (isinstance(a, ast.Name) and a.id == "strides")][0]
+        for _ in range(3):
+            if isinstance(other, ast.Name) and len(la_sk.get(other.id, [])) == 1:
+                other = la_sk[other.id][0]
+        whole = C.unparse(other) in ("self.sliced_inds", "self.sliced_inds.items()",
+                                     "self.sliced_inds.values()", "self.sliced_inds.keys()")
+        if not whole:
+            misaligned = (z, other)
+    if misaligned is not None:
+        r.violation(key, C.loc(sk, misaligned[0]), f"the strides (one per entry of the table) are zipped with "
+                    f"`{C.unparse(misaligned[1], 70)}`, not with the whole table: as soon as an entry is "
+                    "skipped (a projected index) every later index is decoded with its neighbour's stride")
+    elif walks and strides:
         r.ok(key, sk.loc, "key digits follow the order of the sliced_inds table, with strides "
              "of the same table")
     else:
